@@ -669,6 +669,7 @@ fn api<F: FftField + PrimeField, D: Kind<F>>(rep: &mut Report, rng: &mut Rng, ar
     let p = par_of::<F>();
     rep.config(&format!("{fname}/{}", D::KIND));
     rep.require(C_TAU_IN);
+    rep.require("domain obtained by get_coset on a coset");
     rep.require(C_TAU_OUT);
     rep.require(C_SIZE1);
     rep.require(C_COSET);
@@ -683,7 +684,10 @@ fn api<F: FftField + PrimeField, D: Kind<F>>(rep: &mut Report, rng: &mut Rng, ar
         let g = base.group_gen();
         rep.class_if(n == 1, C_SIZE1);
         for (h, hname) in offsets::<F>(rng, g, n, 5) {
-            let Some(dom) = base.get_coset(h) else { continue };
+            // half of the time through another coset first (get_coset replaces the offset: same domain expected)
+            let via = rng.next_u32() % 2 == 0;
+            rep.class_if(via, "domain obtained by get_coset on a coset");
+            let Some(dom) = (if via { base.get_coset(h + F::one()).or_else(|| base.get_coset(F::GENERATOR)).and_then(|c| c.get_coset(h)) } else { base.get_coset(h) }) else { continue };
             let coset = !h.is_one();
             rep.class_if(coset, C_COSET);
             let es = elems(g, h, n);
